@@ -2028,6 +2028,16 @@ static int host_is_big_endian() {
 
             *section) set to the logical bitstream number */
 
+/* the float to int conversion is only defined for values that fit an
+   int (the SSE2 one returns INT_MIN for everything else, so a sample of
+   +70000. came out as full scale negative); bring the scaled sample
+   into range first, the exact clipping to the word size follows */
+static float _ov_ftoi_range(float f){
+  if(f>32768.f)return 32768.f;
+  if(f<-32768.f)return -32768.f;
+  return f;
+}
+
 long ov_read_filter(OggVorbis_File *vf,char *buffer,int length,
                     int bigendianp,int word,int sgned,int *bitstream,
                     void (*filter)(float **pcm,long channels,long samples,void *filter_param),void *filter_param){
@@ -2084,7 +2094,7 @@ long ov_read_filter(OggVorbis_File *vf,char *buffer,int length,
         vorbis_fpu_setround(&fpu);
         for(j=0;j<samples;j++)
           for(i=0;i<channels;i++){
-            val=vorbis_ftoi(pcm[i][j]*128.f);
+            val=vorbis_ftoi(_ov_ftoi_range(pcm[i][j]*128.f));
             if(val>127)val=127;
             else if(val<-128)val=-128;
             *buffer++=val+off;
@@ -2101,7 +2111,7 @@ long ov_read_filter(OggVorbis_File *vf,char *buffer,int length,
               float *src=pcm[i];
               short *dest=((short *)buffer)+i;
               for(j=0;j<samples;j++) {
-                val=vorbis_ftoi(src[j]*32768.f);
+                val=vorbis_ftoi(_ov_ftoi_range(src[j]*32768.f));
                 if(val>32767)val=32767;
                 else if(val<-32768)val=-32768;
                 *dest=val;
@@ -2117,7 +2127,7 @@ long ov_read_filter(OggVorbis_File *vf,char *buffer,int length,
               float *src=pcm[i];
               short *dest=((short *)buffer)+i;
               for(j=0;j<samples;j++) {
-                val=vorbis_ftoi(src[j]*32768.f);
+                val=vorbis_ftoi(_ov_ftoi_range(src[j]*32768.f));
                 if(val>32767)val=32767;
                 else if(val<-32768)val=-32768;
                 *dest=val+off;
@@ -2132,7 +2142,7 @@ long ov_read_filter(OggVorbis_File *vf,char *buffer,int length,
           vorbis_fpu_setround(&fpu);
           for(j=0;j<samples;j++)
             for(i=0;i<channels;i++){
-              val=vorbis_ftoi(pcm[i][j]*32768.f);
+              val=vorbis_ftoi(_ov_ftoi_range(pcm[i][j]*32768.f));
               if(val>32767)val=32767;
               else if(val<-32768)val=-32768;
               val+=off;
@@ -2146,7 +2156,7 @@ long ov_read_filter(OggVorbis_File *vf,char *buffer,int length,
           vorbis_fpu_setround(&fpu);
           for(j=0;j<samples;j++)
             for(i=0;i<channels;i++){
-              val=vorbis_ftoi(pcm[i][j]*32768.f);
+              val=vorbis_ftoi(_ov_ftoi_range(pcm[i][j]*32768.f));
               if(val>32767)val=32767;
               else if(val<-32768)val=-32768;
               val+=off;
